@@ -393,11 +393,11 @@ def run_case(case, keep=False):
         entry = case.get("entry", "c")
         stdin_data = None
         if entry == "c":
-            cmd = [CICADA, "-c", case["text"]]
+            cmd = [CICADA, "-c", case["text"].replace("@CWD@", cwd)]
         elif entry == "script":
             sp = os.path.join(d, "vh", case.get("script_name", "s.sh"))
             with open(sp, "w", encoding="utf-8", newline="") as f:
-                f.write(case["text"])
+                f.write(case["text"].replace("@CWD@", cwd))
             cmd = [CICADA, sp] + list(case.get("args", []))
         elif entry == "stdin":
             cmd = [CICADA]
@@ -443,6 +443,7 @@ def run_case(case, keep=False):
             "timed_out": timed_out,
             "log": read_log(d),
             "wall": time.time() - t0,
+            "cwd_root": cwd,
         }
         if log_at_exit is not None:
             res["log_at_exit"] = log_at_exit
